@@ -108,7 +108,10 @@ func RunC15(t *testing.T) {
 	b := SharedBase()
 	w := DefaultWeights()
 	w.CreateBatch, w.Block, w.PerturbPct = 10, 26, 5
-	w.SnipePct = 30
+	w.SnipePct = 40
+	w.CreateFixed, w.CreateBatch, w.PlaceBid = 4, 14, 40
+	w.Bidders = 4
+	w.RoundsPool = []int{0, 1, 2, 3, 3, 5, 5, 30}
 	w.Reimport = 0 // the export point is the subject of this check
 	w.MaxAuctions = 4
 	body := func(rt *rapid.T, replayOps []Op, split int) {
